@@ -583,7 +583,18 @@ fn th_race(args: &Args, rep: &mut Report, prop: &'static str, rounds: u64, unman
         let mut i = wk as u64;
         while i < rounds {
             let s = seed.wrapping_mul(104729).wrapping_add(i);
-            let out = if unmanaged { th::race::unmanaged_race(prop, s, close) } else { th::race::managed_race(prop, s, close) };
+            let out = match std::panic::catch_unwind(|| if unmanaged { th::race::unmanaged_race(prop, s, close) } else { th::race::managed_race(prop, s, close) }) {
+                Ok(o) => o,
+                Err(p) => {
+                    let msg = format!("a pool call at rest panicked: {}", vh_common::panic_message(&*p));
+                    th::race::RaceOut {
+                        violations: vec![vh_common::Violation { prop, oracle: "later_call_panicked", msg: msg.clone() }],
+                        desc: Json::obj().with("engine", "race").with("seed", s).with("case", msg),
+                        events: 1,
+                        hash: s,
+                    }
+                }
+            };
             cov.evaluations += 1;
             cov.events += out.events;
             let _ = cov.distinct.insert(out.hash);
